@@ -401,18 +401,19 @@ pub struct Q {
     pub n: i128,
     pub d: i128,
 }
+/// (on magnitudes: `i128::MIN.abs()` does not exist; `Q::new` refuses that value, so the result fits)
 fn gcd(a: i128, b: i128) -> i128 {
-    let (mut a, mut b) = (a.abs(), b.abs());
+    let (mut a, mut b) = (a.unsigned_abs(), b.unsigned_abs());
     while b != 0 {
         let t = a % b;
         a = b;
         b = t;
     }
-    a
+    i128::try_from(a).unwrap_or(1)
 }
 impl Q {
     pub fn new(n: i128, d: i128) -> Option<Q> {
-        if d == 0 {
+        if d == 0 || n == i128::MIN || d == i128::MIN {
             return None;
         }
         let g = gcd(n, d).max(1);
